@@ -49,11 +49,44 @@ type burstSpec struct {
 	Leader     plan   `json:"leader"`
 	Second     plan   `json:"second"`
 	CancelLead bool   `json:"cancel_leader,omitempty"` // the probing client disconnects instead of getting an upstream reply
+	// scenario "mixed" (requests that differ in everything a zone failure does
+	// NOT partition by): follower i sends ECS Aud[i%len], asks type
+	// Qtypes[i%len] and, with MixCD, sets CD on every third request. SameName:
+	// all of them ask Name, otherwise each asks its own name under Zone.
+	Aud      []string `json:"audiences,omitempty"`
+	Qtypes   []uint16 `json:"qtypes,omitempty"`
+	MixCD    bool     `json:"mix_cd,omitempty"`
+	SameName bool     `json:"same_name,omitempty"`
+}
+
+// follower is the i-th request of a burst (a pure function of the spec).
+func (spec burstSpec) follower(idx, i int) op {
+	name := spec.Name
+	if spec.Scenario == "siblings" || (spec.Scenario == "mixed" && !spec.SameName) {
+		name = fmt.Sprintf("s%d-%d.%s", idx, i, spec.Zone)
+	}
+	entry := entries[(i*7+idx)%len(entries)]
+	client := fmt.Sprintf("203.0.113.%d:%d", 1+i%250, 2000+i)
+	o := op{Client: client, Entry: entry, Name: name, Qtype: spec.Qtype, Qclass: dns.ClassINET, CD: spec.CD, ECS: spec.ECS, EDNS: true}
+	if spec.Scenario == "mixed" {
+		if len(spec.Aud) > 0 {
+			o.ECS = spec.Aud[i%len(spec.Aud)]
+		}
+		if len(spec.Qtypes) > 0 {
+			o.Qtype = spec.Qtypes[i%len(spec.Qtypes)]
+		}
+		if spec.MixCD && i%3 == 2 {
+			o.CD = !spec.CD
+		}
+	}
+	return o
 }
 
 type burstCall struct {
 	name  string
 	qtype uint16
+	cd    bool
+	scope string // ECS audience of the request that made the call ("" = global)
 	p     plan
 	end   time.Time
 	// an ACTIVE cached failure covered this very question when the call
@@ -63,6 +96,7 @@ type burstCall struct {
 
 type burstState struct {
 	spec    burstSpec
+	byAddr  map[string]op // client address -> the follower's request
 	mu      sync.Mutex
 	calls   []burstCall
 	inStub  int
@@ -72,9 +106,15 @@ type burstState struct {
 }
 
 func (b *burstState) stub(ctx context.Context, req *stack.StubRequest, h *hist) *stack.StubReply {
+	// which follower is this? (every follower has its own client address)
+	fo, known := b.byAddr[req.ClientAddr]
+	if !known {
+		fo = op{ECS: b.spec.ECS, CD: req.CD}
+	}
+	aud := audience(h.c.Cfg.ECS, fo.ECS)
 	var scope netip.Prefix
-	if a := audience(h.c.Cfg.ECS, b.spec.ECS); a != "" {
-		scope, _ = netip.ParsePrefix(a)
+	if aud != "" {
+		scope, _ = netip.ParsePrefix(aud)
 	}
 	_, active := h.cache.VerifStore().LookupFailure(req.Msg, scope)
 	b.mu.Lock()
@@ -86,7 +126,10 @@ func (b *burstState) stub(ctx context.Context, req *stack.StubRequest, h *hist) 
 	if b.spec.CancelLead && n == 0 {
 		p = plan{Kind: "local", Local: "cancel"}
 	}
-	b.calls = append(b.calls, burstCall{name: canon(req.Q.Name), qtype: req.Q.Qtype, p: p, activeAtEntry: active})
+	b.calls = append(b.calls, burstCall{name: canon(req.Q.Name), qtype: req.Q.Qtype, cd: req.CD, scope: aud, p: p, activeAtEntry: active})
+	if !known {
+		h.r.Count("burst_calls_from_unknown_client", 1)
+	}
 	b.inStub++
 	if b.inStub > b.maxIn {
 		b.maxIn = b.inStub
@@ -151,7 +194,17 @@ func (h *hist) Burst(spec burstSpec) {
 		return
 	}
 	r := h.r
-	b := &burstState{spec: spec, gate: make(chan struct{}), entered: make(chan struct{}, 1)}
+	b := &burstState{spec: spec, gate: make(chan struct{}), entered: make(chan struct{}, 1), byAddr: map[string]op{}}
+	auds := map[string]bool{}
+	for i := 0; i < spec.N; i++ {
+		fo := spec.follower(idx, i)
+		b.byAddr[fo.Client] = fo
+		auds[audience(h.c.Cfg.ECS, fo.ECS)] = true
+	}
+	scopedAuds := len(auds)
+	if auds[""] {
+		scopedAuds--
+	}
 	h.mu.Lock()
 	h.burst = b
 	h.mu.Unlock()
@@ -161,15 +214,7 @@ func (h *hist) Burst(spec burstSpec) {
 		h.mu.Unlock()
 	}()
 
-	mk := func(i int) op {
-		name := spec.Name
-		if spec.Scenario == "siblings" {
-			name = fmt.Sprintf("s%d-%d.%s", idx, i, spec.Zone)
-		}
-		entry := entries[(i*7+idx)%len(entries)]
-		client := fmt.Sprintf("203.0.113.%d:%d", 1+i%250, 2000+i)
-		return op{Client: client, Entry: entry, Name: name, Qtype: spec.Qtype, Qclass: dns.ClassINET, CD: spec.CD, ECS: spec.ECS, EDNS: true}
-	}
+	mk := func(i int) op { return spec.follower(idx, i) }
 
 	type reply struct {
 		out outcome
@@ -258,6 +303,17 @@ func (h *hist) Burst(spec burstSpec) {
 		}
 	} else {
 		r.Count("bursts_judged", 1)
+		// requests that carry an ECS audience (ECS handling on): the election
+		// must not depend on the audience — a zone failure is shared by all of
+		// them, a question failure of one audience is one generation
+		switch {
+		case scopedAuds >= 2:
+			r.Count("bursts_judged_mixed_scoped_audiences", 1)
+			r.Max("burst_distinct_scoped_audiences_max", int64(scopedAuds))
+		case scopedAuds == 1 && !auds[""]:
+			r.Count("bursts_judged_one_scoped_audience", 1)
+			r.Count("bursts_judged_one_scoped_audience_"+spec.Scenario, 1)
+		}
 		if spec.N >= 8 {
 			sampleOnce(r, "burst", map[string]any{"part": "probe election (race child)", "what": "N requests parked on one expired failure generation, then the probe was released",
 				"cfg": h.c.Cfg, "burst": spec, "upstream_calls": len(calls), "in_stub_at_barrier": atBarrier, "history": h.c.Index, "op": idx})
@@ -281,6 +337,11 @@ func (h *hist) Burst(spec burstSpec) {
 		// a miss proceed to run the upstream chain themselves").
 		if allFail {
 			r.Count("bursts_count_bound_checked", 1)
+			if scopedAuds >= 2 {
+				r.Count("bursts_count_bound_checked_mixed_scoped_audiences", 1)
+			} else if scopedAuds == 1 && !auds[""] {
+				r.Count("bursts_count_bound_checked_one_scoped_audience", 1)
+			}
 			r.Count(fmt.Sprintf("burst_upstream_calls_%d", min(len(calls), 3)), 1)
 			r.Max("burst_upstream_calls_all_failing_max", int64(len(calls)))
 			bypass := len(calls) > 2
@@ -321,7 +382,7 @@ func (h *hist) Burst(spec burstSpec) {
 
 	// fold what happened into the model (completion order)
 	for _, c := range calls {
-		k := qkey{Name: c.name, Qtype: c.qtype, Qclass: dns.ClassINET, CD: spec.CD, Scope: audience(h.c.Cfg.ECS, spec.ECS)}
+		k := qkey{Name: c.name, Qtype: c.qtype, Qclass: dns.ClassINET, CD: c.cd, Scope: c.scope}
 		t := c.end
 		if t.IsZero() {
 			t = end
@@ -367,11 +428,25 @@ func (g *gen) burstHistory() {
 	for round, rounds := 0, 2+g.rng.IntN(3); round < rounds; round++ {
 		z := g.freshZone()
 		spec := burstSpec{Zone: z, N: []int{2, 3, 5, 8, 13, 24, 48}[g.rng.IntN(7)], Qtype: qtypes[g.rng.IntN(3)], CD: g.rng.IntN(4) == 0, ECS: g.ecs()}
-		if g.rng.IntN(2) == 0 {
+		switch g.rng.IntN(3) {
+		case 0:
 			spec.Scenario = "same-name"
 			spec.Name = "p." + z
-		} else {
+		case 1:
 			spec.Scenario = "siblings"
+		default:
+			// requests that differ in audience, type and CD (none of which
+			// partitions a zone failure) under one expired zone failure
+			spec.Scenario = "mixed"
+			spec.Name = "p." + z
+			spec.SameName = g.rng.IntN(3) == 0
+			spec.MixCD = g.rng.IntN(2) == 0
+			for i, n := 0, 2+g.rng.IntN(5); i < n; i++ {
+				spec.Aud = append(spec.Aud, g.ecs())
+			}
+			for i, n := 0, 1+g.rng.IntN(3); i < n; i++ {
+				spec.Qtypes = append(spec.Qtypes, qtypes[g.rng.IntN(len(qtypes))])
+			}
 		}
 		depth := 1 + g.rng.IntN(3)
 		var last op
@@ -382,6 +457,10 @@ func (g *gen) burstHistory() {
 				o.Plan, o.Tag = g.failPlan(), "fail"
 			} else {
 				o = g.base(fmt.Sprintf("f%d.%s", i, z), spec.Qtype, spec.CD, spec.ECS)
+				if spec.Scenario == "mixed" {
+					// the zone's failures were seen by any audience / CD value
+					o = g.base(fmt.Sprintf("f%d.%s", i, z), qtypes[g.rng.IntN(len(qtypes))], g.rng.IntN(3) == 0, g.ecs())
+				}
 				p := g.failPlan()
 				p.ZoneFail = z
 				o.Plan, o.Tag = p, "zone-fail"
@@ -403,7 +482,7 @@ func (g *gen) burstHistory() {
 			case 1:
 				return plan{Kind: "local", Local: locals[g.rng.IntN(len(locals))]}
 			case 2:
-				if spec.Scenario == "siblings" {
+				if spec.Scenario != "same-name" {
 					p := g.failPlan()
 					p.ZoneFail = z
 					return p
